@@ -87,6 +87,14 @@ namespace xv
         }
         return -1;
     }
+    inline int classify_special(const Violation& v, const std::string& fn, long double x, long double obs)
+    {
+        (void)v;
+        (void)fn;
+        (void)x;
+        (void)obs;
+        return -1;
+    }
     inline int classify_math_ticks(const Violation& v, const MFun& f, unsigned ticks)
     {
         (void)v;
